@@ -31,11 +31,13 @@ def rank_branches(fd, comm):
     out = []
     for n in ast.walk(fd):
         if isinstance(n, ast.If) and isinstance(n.test, ast.Compare) \
-                and ast.unparse(n.test.left) in (f"{comm}.rank", "my_rank", "local_rank") \
-                and isinstance(n.test.ops[0], (ast.Eq, ast.NotEq)) \
-                and (isinstance(n.test.comparators[0], ast.Constant)
-                     or "root" in ast.unparse(n.test.comparators[0])):
-            out.append(n)
+                and len(n.test.ops) == 1 and isinstance(n.test.ops[0], (ast.Eq, ast.NotEq)):
+            for a, b in ((n.test.left, n.test.comparators[0]),
+                         (n.test.comparators[0], n.test.left)):
+                if ast.unparse(a) in (f"{comm}.rank", "my_rank", "local_rank") and (
+                        isinstance(b, ast.Constant) or "root" in ast.unparse(b)):
+                    out.append(n)
+                    break
     return out
 
 
